@@ -1431,6 +1431,31 @@ def lower(fn: ast.FunctionDef, tuples: bool = True, ifexp: bool = True) -> ast.F
     * ``x = A if c else B`` / ``return A if c else B`` / ``f(A if c else B)`` as a statement  ->  if c: ... else: ...
     """
 
+    # locals that only ever hold True / False
+    cand: dict[str, bool] = {}
+    for n_ in ast.walk(fn):
+        if isinstance(n_, ast.Assign) and len(n_.targets) == 1 and isinstance(n_.targets[0], ast.Name):
+            okb = (isinstance(n_.value, ast.Constant) and isinstance(n_.value.value, bool)) or _bool_typed(n_.value) is not None
+            cand[n_.targets[0].id] = cand.get(n_.targets[0].id, True) and okb
+        elif isinstance(n_, ast.Name) and isinstance(n_.ctx, ast.Store):
+            pass
+    other_stores = {n_.id for n_ in ast.walk(fn) if isinstance(n_, ast.Name) and isinstance(n_.ctx, ast.Store)}
+    assigned_plain = {t.id for n_ in ast.walk(fn) if isinstance(n_, ast.Assign) and len(n_.targets) == 1 for t in n_.targets if isinstance(t, ast.Name)}
+    params = {a_.arg for a_ in ast.walk(fn) if isinstance(a_, ast.arg)}
+    multi = set()
+    for n_ in ast.walk(fn):  # names that are also bound in other ways (loop targets, tuple unpacking, with ... as)
+        if isinstance(n_, (ast.For, ast.comprehension)):
+            multi |= {x.id for x in ast.walk(n_.target) if isinstance(x, ast.Name)}
+        elif isinstance(n_, ast.Assign) and not (len(n_.targets) == 1 and isinstance(n_.targets[0], ast.Name)):
+            multi |= {x.id for t in n_.targets for x in ast.walk(t) if isinstance(x, ast.Name) and isinstance(x.ctx, ast.Store)}
+        elif isinstance(n_, (ast.AugAssign, ast.AnnAssign, ast.NamedExpr)) and isinstance(n_.target, ast.Name):
+            multi.add(n_.target.id)
+        elif isinstance(n_, ast.With):
+            multi |= {x.id for it_ in n_.items if it_.optional_vars is not None for x in ast.walk(it_.optional_vars) if isinstance(x, ast.Name)}
+        elif isinstance(n_, ast.ExceptHandler) and n_.name:
+            multi.add(n_.name)
+    bool_names = {k for k, v in cand.items() if v and k not in multi and k not in params}
+
     def rewrite(block: list[ast.stmt]) -> None:
         i = 0
         while i < len(block):
@@ -1532,6 +1557,15 @@ def lower(fn: ast.FunctionDef, tuples: bool = True, ifexp: bool = True) -> ast.F
                     c.value.elts[0] = ast.copy_location(ast.Constant(value=v), st)  # type: ignore[union-attr]
                     return c
                 new = [ast.copy_location(ast.If(test=cond, body=[mkb(True)], orelse=[mkb(False)]), st)]
+            elif isinstance(st, ast.Return) and isinstance(st.value, ast.BoolOp) and len(st.value.values) >= 2 \
+                    and (_bool_typed(st.value.values[0]) is not None or (isinstance(st.value.values[0], ast.Name) and st.value.values[0].id in bool_names)):
+                # return A or B  (A a boolean)  ->  if A: return True ; return B        /  return A and B  ->  if not A: return False ; return B
+                first = st.value.values[0]
+                rest_v = st.value.values[1] if len(st.value.values) == 2 else ast.BoolOp(op=st.value.op, values=st.value.values[1:])
+                is_or = isinstance(st.value.op, ast.Or)
+                test_ = first if is_or else ast.UnaryOp(op=ast.Not(), operand=first)
+                new = [ast.copy_location(ast.If(test=test_, body=[ast.copy_location(ast.Return(value=ast.Constant(value=is_or)), st)], orelse=[]), st),
+                       ast.copy_location(ast.Return(value=rest_v), st)]
             elif isinstance(st, ast.Return) and isinstance(st.value, ast.IfExp):
                 new = [ast.copy_location(ast.If(test=st.value.test, body=[ast.copy_location(ast.Return(value=st.value.body), st)],
                                                 orelse=[ast.copy_location(ast.Return(value=st.value.orelse), st)]), st)]
@@ -1732,6 +1766,10 @@ class _Canon(ast.NodeTransformer):
         lazy = _map_to_genexp(node)
         if lazy is not None:
             return ast.copy_location(lazy, node)
+        if isinstance(f, ast.Name) and f.id == "getattr" and len(node.args) == 2 and not node.keywords and isinstance(node.args[1], ast.Constant) \
+                and isinstance(node.args[1].value, str) and node.args[1].value.isidentifier() and not node.args[1].value.startswith("__"):
+            # getattr(x, "name") with a literal name is x.name
+            return ast.copy_location(ast.Attribute(value=node.args[0], attr=node.args[1].value, ctx=ast.Load()), node)
         if isinstance(f, ast.Attribute) and f.attr == "format" and isinstance(f.value, ast.Constant) and isinstance(f.value.value, str) \
                 and not any(isinstance(a, ast.Starred) for a in node.args) and all(k.arg is not None for k in node.keywords):
             js = _format_to_fstring(f.value.value, node.args, {k.arg: k.value for k in node.keywords})
@@ -2173,6 +2211,11 @@ def _search_loops(fn: ast.FunctionDef) -> None:
                 if len(b) == 1 and isinstance(b[0], ast.Return) and boolc(b[0].value) is not None and not st.orelse \
                         and isinstance(nxt, ast.Return) and boolc(nxt.value) == (not boolc(b[0].value)):
                     new = [ast.copy_location(ast.Return(value=_quantifier(cond, st.target, st.iter, bool(boolc(b[0].value)))), st)]
+                    block[i:i + 2] = new
+                elif len(b) == 1 and isinstance(b[0], ast.Break) and len(st.orelse) == 1 and isinstance(st.orelse[0], ast.Return) and boolc(st.orelse[0].value) is not None \
+                        and isinstance(nxt, ast.Return) and boolc(nxt.value) == (not boolc(st.orelse[0].value)):
+                    # for T in IT: if C: break   else: return K2   ;  return not K2
+                    new = [ast.copy_location(ast.Return(value=_quantifier(cond, st.target, st.iter, bool(boolc(nxt.value)))), st)]
                     block[i:i + 2] = new
                 elif len(b) == 2 and isinstance(b[1], ast.Break) and isinstance(b[0], ast.Assign) and len(b[0].targets) == 1 and isinstance(b[0].targets[0], ast.Name) \
                         and boolc(b[0].value) is not None:
